@@ -216,7 +216,7 @@ PROPS = {
         "trusted_base": KERNEL + TIE + ["the strict tokenizer and grammar predicates are Lean code written from the XML grammar / LapTimer's documented field syntax, independent of the printer model",
                                         "float formatting as in C01"],
         "assumptions": ["MM in MM:SS.cc is read as 'at least two digits' (100+ minute durations print three)"],
-        "partial_notes": ["tree-level well-formedness and the numeric field grammars are decided per run on generated documents, not proved for all documents; proved for all inputs: header, schema tie, the complete text pipeline"],
+        "partial_notes": ["proved for all inputs: header, schema tie, the complete text pipeline, whole-document strict well-formedness and read-back for every element tree, duration and lap-date syntax; decided per run: float-dependent field grammars, the marshaller's walk (model = implementation)"],
     },
     "C14": {
         "props": "TrackVerif.LT.PropsC14",
